@@ -225,6 +225,28 @@ def run(rep):
     ftail = ftop[ftop.index(floop) + 1:]
     rej = [k for k, s in enumerate(fstm) if is_rejection(s, fi)]
     rep.check(bool(rej) and rej[0] <= 1, "R08.a", file, "c_flathomogen", "decreasing index rejected before any accumulation or store", "", line=floop.get("_line"))
+    for kname, kst, kv, kline in (("c_aggregate", stm, iv, loop.get("_line")), ("c_flathomogen", fstm, fi, floop.get("_line"))):
+        # the test compares the current index with the PREVIOUS one: evaluated from the top of the loop body with iaprev still holding
+        # the value carried from the last iteration, some error return must be taken exactly under index < previous, before any store
+        try:
+            rce = cq.evaluate(kst, env={"iaprev": ('sym', 'IAPREV')})
+        except Undecided as ex:
+            rep.undecided("R08.a", file, kname, "decreasing index compared with the previous iteration's index", str(ex), line=kline)
+            continue
+        errs = [r for r in rce.returns if isinstance(r[0], tuple) and not cq.same_expr(r[0], "0")]
+        def feasible(conds):
+            for a_, b_ in ((0, 1), (1, 2), (0, 2)):
+                ok_ = True
+                for cnd, t in conds:
+                    v = cq.int_eval(cnd, {kv: 0, "aggindex[0]": a_, "IAPREV": b_, "ia": a_})
+                    if v is not None and bool(v) != t:
+                        ok_ = False
+                if ok_:
+                    return True
+            return False
+        hit = [r for r in errs if cq.holds(r[1], f"aggindex[{kv}] < IAPREV", True) and feasible(r[1])]
+        rep.check(bool(hit), "R08.a", file, kname, "the rejection compares the current index with the index of the previous iteration (not yet overwritten)",
+                  f"{len(errs)} error return(s), none under `aggindex[{kv}] < <previous index>`", line=kline)
     badh, nh = [], 0
     wb_ref = {}
     for G, N, X in itertools.product([True, False], repeat=3):
